@@ -118,6 +118,10 @@ type nodeWorld struct {
 	atEnd          []func()
 
 	lastSnap *snapshot
+	lastDisconnect map[peer.ID]time.Duration
+	streamsGoneAt  map[peer.ID]time.Duration
+	vals     []*simValidator
+	valCalls []valCall
 	keyRng   *prng
 	msgSeq   int
 	sent     map[string]*pb.Message // messages sent by fakes, by id
@@ -181,7 +185,7 @@ func gsParamsFromPlan(p *Plan) GossipSubParams {
 
 func newNodeWorld(s *sim) *nodeWorld {
 	p := s.plan
-	w := &nodeWorld{s: s, plan: p, fakes: map[int]*fakePeer{}, appScore: map[peer.ID]float64{}, sent: map[string]*pb.Message{}, extraOps: map[string]func(Item){}}
+	w := &nodeWorld{s: s, plan: p, fakes: map[int]*fakePeer{}, appScore: map[peer.ID]float64{}, sent: map[string]*pb.Message{}, extraOps: map[string]func(Item){}, lastDisconnect: map[peer.ID]time.Duration{}, streamsGoneAt: map[peer.ID]time.Duration{}}
 	w.keyRng = newPrng(p.Seed, "keys")
 	nt := p.ki("ntopics", 1)
 	for i := 0; i < nt; i++ {
@@ -264,8 +268,135 @@ func (w *nodeWorld) nodeOptions() (string, []Option) {
 	return router, opts
 }
 
+// ---------------------------------------------------------------------------------------------
+// simulator-owned validators
+
+type simValidator struct {
+	w        *nodeWorld
+	idx      int
+	topic    string // "" = default validator
+	inline   bool
+	timeout  time.Duration
+	conc     int
+	mu       sync.Mutex
+	inFlight int
+	maxSeen  int
+}
+
+type valCall struct {
+	val     int
+	mid     string
+	from    peer.ID
+	t       time.Duration
+	verdict ValidationResult
+	parked  bool
+	ctxDone bool // returned because its context ended
+	local   bool
+}
+
+// verdictFor: the verdict validator j gives message id (hash-derived: stable under shrinking).
+func (w *nodeWorld) verdictFor(j int, mid string) ValidationResult {
+	x := w.s.hf(fmt.Sprintf("verdict|%d|%s", j, mid))
+	pr, pi, pw := w.plan.k("p_reject", 0), w.plan.k("p_ignore", 0), w.plan.k("p_weird", 0)
+	switch {
+	case x < pr:
+		return ValidationReject
+	case x < pr+pi:
+		return ValidationIgnore
+	case x < pr+pi+pw:
+		return ValidationResult(7)
+	}
+	return ValidationAccept
+}
+
+func (w *nodeWorld) parkFor(j int, mid string) bool {
+	return w.s.hf(fmt.Sprintf("park|%d|%s", j, mid)) < w.plan.k("p_park", 0)
+}
+
+func (v *simValidator) validate(ctx context.Context, from peer.ID, msg *Message) ValidationResult {
+	w := v.w
+	mid := w.n.ps.idGen.ID(msg)
+	verdict := w.verdictFor(v.idx, mid)
+	park := w.parkFor(v.idx, mid)
+	v.mu.Lock()
+	v.inFlight++
+	if v.inFlight > v.maxSeen {
+		v.maxSeen = v.inFlight
+	}
+	v.mu.Unlock()
+	call := valCall{val: v.idx, mid: mid, from: from, t: w.s.now(), verdict: verdict, parked: park, local: msg.Local || from == w.n.h.id}
+	if park {
+		_, ok := w.s.park(fmt.Sprintf("val%d|%x", v.idx, shortHash([]byte(mid))), mid, nil, ctx.Done())
+		if !ok {
+			call.ctxDone = true
+			call.verdict = ValidationIgnore
+		}
+	}
+	v.mu.Lock()
+	v.inFlight--
+	v.mu.Unlock()
+	w.s.mu.Lock()
+	w.valCalls = append(w.valCalls, call)
+	w.s.mu.Unlock()
+	w.s.note("validate v%d %x -> %d", v.idx, shortHash([]byte(mid)), call.verdict)
+	return call.verdict
+}
+
+func (w *nodeWorld) calls() []valCall {
+	w.s.mu.Lock()
+	defer w.s.mu.Unlock()
+	return append([]valCall(nil), w.valCalls...)
+}
+
+// validatorOptions builds default validators from knobs: nval_default (0..3), v<j>_inline,
+// v<j>_timeout_ms, v<j>_conc. A topic validator (index 3) is registered after start when
+// knob topic_val is set.
+func (w *nodeWorld) validatorOptions() []Option {
+	var opts []Option
+	n := w.plan.ki("nval_default", 0)
+	for j := 0; j < n; j++ {
+		v := &simValidator{w: w, idx: j, inline: w.plan.kb(fmt.Sprintf("v%d_inline", j)),
+			timeout: time.Duration(w.plan.ki(fmt.Sprintf("v%d_timeout_ms", j), 0)) * time.Millisecond, conc: w.plan.ki(fmt.Sprintf("v%d_conc", j), 0)}
+		w.vals = append(w.vals, v)
+		vo := []ValidatorOpt{WithValidatorInline(v.inline)}
+		if v.timeout > 0 {
+			vo = append(vo, WithValidatorTimeout(v.timeout))
+		}
+		if v.conc > 0 {
+			vo = append(vo, WithValidatorConcurrency(v.conc))
+		}
+		opts = append(opts, WithDefaultValidator(ValidatorEx(v.validate), vo...))
+	}
+	return opts
+}
+
+func (w *nodeWorld) registerTopicValidators() {
+	if !w.plan.kb("topic_val") {
+		return
+	}
+	for ti, t := range w.topics {
+		if ti > 0 && !w.plan.kb("topic_val_all") {
+			break
+		}
+		j := 3 + ti
+		v := &simValidator{w: w, idx: j, topic: t, inline: w.plan.kb("v3_inline"),
+			timeout: time.Duration(w.plan.ki("v3_timeout_ms", 0)) * time.Millisecond, conc: w.plan.ki("v3_conc", 0)}
+		w.vals = append(w.vals, v)
+		vo := []ValidatorOpt{WithValidatorInline(v.inline)}
+		if v.timeout > 0 {
+			vo = append(vo, WithValidatorTimeout(v.timeout))
+		}
+		if v.conc > 0 {
+			vo = append(vo, WithValidatorConcurrency(v.conc))
+		}
+		t := t
+		w.s.do("RegisterTopicValidator "+t, func() any { return w.n.ps.RegisterTopicValidator(t, ValidatorEx(v.validate), vo...) })
+	}
+}
+
 func (w *nodeWorld) startNode(extra ...Option) error {
 	router, opts := w.nodeOptions()
+	opts = append(opts, w.validatorOptions()...)
 	opts = append(opts, extra...)
 	kr := newPrng(w.plan.Seed, "nodekey")
 	n, err := w.s.newNode("N", genKey(kr, w.plan.ki("node_key_type", 0)), nodeCfg{router: router, opts: opts, rsize: w.plan.ki("rsize", 3)})
@@ -274,6 +405,7 @@ func (w *nodeWorld) startNode(extra ...Option) error {
 	}
 	w.n = n
 	w.s.settle()
+	w.registerTopicValidators()
 	return nil
 }
 
@@ -444,6 +576,7 @@ func (w *nodeWorld) exec1(it Item) {
 		}
 	case "disconnect":
 		if fp := w.fake(int(it.a(0))); fp != nil {
+			w.lastDisconnect[fp.id] = s.now()
 			fp.disconnect()
 		}
 	case "reconnect": // [idx, dir]
@@ -544,6 +677,17 @@ func (w *nodeWorld) exec1(it Item) {
 			s.do("RemoveDirectPeer "+fp.name, func() any { return w.n.ps.RemoveDirectPeer(fp.id) })
 		}
 		return
+	case "release": // [k] release the k-th parked application callback
+		gs := s.parkedGates()
+		if len(gs) == 0 {
+			return
+		}
+		s.release(gs[int(it.a(0))%len(gs)], 0)
+	case "release-all":
+		for _, g := range s.parkedGates() {
+			s.release(g, 0)
+			s.settle()
+		}
 	default:
 		if f := w.extraOps[it.Op]; f != nil {
 			f(it)
